@@ -54,21 +54,23 @@ def ensure_tables(events, full_base=True):
 histories, kinds = [], []
 
 
-def closing(tabs):
+def closing(tabs, base_set=()):
     out = []
     for T in ["pub"] + sorted(tabs):
         for n in LAZY_NAMES:
             for a in ("E1", "I11", "E0"):
                 out.append(["read", T, a, n])
-        out.append(["read", T, "E1", "mass"])
-        out.append(["read", T, "I11", "density"])
+        if T not in base_set:       # values computed from an assigned number are not classifiable
+            out.append(["read", T, "E1", "mass"])
+            out.append(["read", T, "I11", "density"])
     return out
 
 
 def add(events, kind, full_base=True):
     h = ensure_tables(events, full_base)
     tabs = {e[1] for e in h if e[0] == "new"}
-    histories.append(h + closing(tabs))
+    base_set = {e[1] for e in h if e[0] == "set" and GROUP_OF[e[3]] == "base"}
+    histories.append(h + closing(tabs, base_set))
     kinds.append(kind)
 
 
@@ -78,6 +80,19 @@ def group_pool(g):
     key, n, a = KEY_OF_GROUP[g], MAIN[g], ATOM_FOR.get(g, "E1")
     return [TOUCH[g][0], TOUCH[g][-1], ["init", key, "p1"], ["init", key, "p2"], ["read", "p1", a, n],
             ["set", "p1", a, n], ["mut", "p1", a, n], ["mut", "p1", "E0" if a == "E1" else "I01", n], ["read", "p2", a, n]]
+
+
+def sentinel_free(seq):
+    """no init / calculator of a group on a table after an assignment of the sentinel in that group"""
+    assigned = set()
+    for e in seq:
+        if e[0] == "set":
+            assigned.add((e[1], GROUP_OF[e[3]]))
+        if e[0] == "init" and (e[2], KEYS[e[1]]) in assigned:
+            return False
+        if e[0] == "calc" and any((e[2], g) in assigned for g in CALC_GROUPS[e[1]]):
+            return False
+    return True
 
 
 def pack(seqs):
@@ -94,8 +109,8 @@ def pack(seqs):
 per_group = {}
 for g in LAZY_GROUPS:
     P = group_pool(g)
-    seqs = [list(s) for L in (1, 2) for s in itertools.product(P, repeat=L)]
-    tri = [list(s) for s in itertools.product(P, repeat=3)]
+    seqs = [list(s) for L in (1, 2) for s in itertools.product(P, repeat=L) if sentinel_free(s)]
+    tri = [list(s) for s in itertools.product(P, repeat=3) if sentinel_free(s)]
     rng.shuffle(tri)
     seqs += tri if not quick else tri[:12]
     rng.shuffle(seqs)
@@ -117,6 +132,9 @@ for _ in range(n_orders):
     for _ in range(rng.randint(0, 4)):
         g = rng.choice(LAZY_GROUPS)
         ev.append([rng.choice(["set", "mut", "mut"]), T, rng.choice(["E1", "I11", "E0", "XE1"]), rng.choice(GROUPS[g])])
+    if rng.random() < 0.5:
+        a, n = rng.choice([("E1", "_mass"), ("I11", "_mass"), ("E1", "_density"), ("E0", "_mass")])
+        ev += [["set", T, a, n], ["read", T, a, n[1:]], ["read", "pub", a, n[1:]]]
     ev += [["parse", T], ["pickle", T, rng.choice(ATOMS[1:])]]
     add(ev, "nine-inits", full_base=False)
 
@@ -160,7 +178,10 @@ for T in PRIV:
     ALPHA += [["parse", T], ["pickle", T, "XI11"], ["pickle", T, "E1"]]
     for n in LAZY_NAMES + GROUPS["base"]:
         for a in ("E1", "I11", "E0", "XE1", "I01"):
-            ALPHA += [["set", T, a, n], ["mut", T, a, n], ["mut", T, a, n]]
+            ALPHA += [["mut", T, a, n], ["mut", T, a, n]]
+    for n in LAZY_NAMES + SET_NAMES["base"]:
+        for a in ("E1", "I11", "E0", "XE1", "I01"):
+            ALPHA += [["set", T, a, n]]
 ALPHA += [["import", "fasta"]] * 4
 nrand, rlen = (60, 10) if quick else (2000, 30)
 if len(sys.argv) > 3:
@@ -173,7 +194,11 @@ for _ in range(nrand):
         if e[0] == "set":
             assigned.add((e[1], GROUP_OF[e[3]]))
         if e[0] == "calc" and any((e[2], g) in assigned for g in CALC_GROUPS[e[1]] + ["base"]):
-            continue        # a calculator fed with the sentinel: outside the model
+            continue        # a calculator fed with the sentinel value: outside the model
+        if e[0] == "init" and ((e[2], KEYS[e[1]]) in assigned or (e[2], "base") in assigned):
+            continue        # a loader fed with the sentinel value (it expects a dict / list / number there)
+        if e[0] in ("read", "has", "mut") and GROUP_OF[e[3]] == "base" and (e[1], "base") in assigned:
+            continue        # a number computed from the assigned one: not classifiable
         ev.append(e)
     add(ev, "random", full_base=rng.random() < 0.6)
 
